@@ -1,15 +1,24 @@
 """C28 Value comparison is a consistent total order (core/value.go, ops.go, su*.go, deepequal.go)
 
-Mutation testing (scratch worktrees, quick tier, each mutant compiles and keeps
-`go test ./core/ ./util/dnum/` green; all are reported as VIOLATION):
-  M1 core/sudnum.go   SuDnum.Hash: integer hash only for |n| <= MaxSuInt (= the original F14 defect)   caught (Row: hash of equal numbers differs)
-  M2 core/suconcat.go SuConcat.Compare: strings.Compare(AsStr(other), c.toStr()) (operands swapped)      caught (cmp sign)
-  M3 core/sutimestamp.go CompareSuTimestamp: ignore the extra byte                                       caught (cmp 0 for unequal timestamps)
-  M4 core/suobject.go deepCompare: shorter list greater (return +1 / -1 swapped for nil)                 caught
-  M5 core/sustr.go    SuStr.Equal(SuConcat): compare lengths only                                        caught (eq / found)
-  M6 core/suobject.go SuObject.Hash: chain named members in iteration order (= the original F17 defect)  caught
-  M7 core/suint64.go  SuInt64.Compare via rounded Dnum (= the original F16 defect)                       caught
-  M8 core/value.go    Order(): Except ranked as ordOther                                                 caught (cmp of SuExcept against strings / dates)
+Findings re-found / found on the unchanged tree (each with a fix: commit in /tmp/wt-values and a
+named relaxation in TraceValues.tla should it be recorded instead of repaired):
+  F14  SuDnum.Hash equals the integer hash only within int16          key hash-int-dnum-beyond-int16
+  new  integers >= 10^16 against decimals: Compare/Equal go through a rounding conversion
+       (Equal asymmetric, Compare not transitive; Dnum.ToInt64 rejects 9223372036854775000)
+                                                                       key int-beyond-16-digits-vs-decimal
+  new  SuObject.Hash depends on the insertion order of named members   key object-hash-named-order
+
+Mutation testing (scratch worktree on top of the fix commits, quick tier, seed 1; "tests" =
+go test -short ./core/ ./util/dnum/ with the mutant):
+  M1 sudnum.go      SuDnum.Hash integer hash only within MaxSuInt (the F14 defect)      tests green   VIOLATION
+  M2 suconcat.go    SuConcat.Compare operands swapped                                   tests green   VIOLATION
+  M6 suobject.go    SuObject.Hash chains named members in iteration order               tests green   VIOLATION
+  M7 suint64.go     SuInt64.Compare via rounded Dnum (the 17-digit defect)              tests green   VIOLATION
+  M8 value.go       Order(): SuExcept no longer ranked as a string                      tests green   VIOLATION
+  M3 sutimestamp.go CompareSuTimestamp ignores the extra byte                           core tests fail, VIOLATION
+  M4 suobject.go    deepCompare: shorter list greater                                   core tests fail, VIOLATION
+  M5 sustr.go       SuStr.Equal(SuConcat) compares lengths only                         core tests fail, VIOLATION
+  M9 sutimestamp.go SuTimestamp.Equal(SuDate) true for the same date                    core tests fail, VIOLATION
 """
 
 import json, os, re
